@@ -236,7 +236,13 @@ class Minimiser:
                     def get(s, i=i, key=key):
                         return list(all_ops(s))[i][key]
                     def put(s, v, i=i, key=key):
-                        list(all_ops(s))[i][key] = v
+                        ops_now = list(all_ops(s))
+                        ops_now[i][key] = v
+                        # twins asked "the same question" must keep asking the same question
+                        if key == "props" and ops_now[i].get("eq"):
+                            for o2 in ops_now:
+                                if o2.get("eq") == ops_now[i]["eq"] and o2.get("op") == ops_now[i].get("op"):
+                                    o2[key] = copy.deepcopy(v)
                     self.ddmin_list(get, put, 1 if key == "props" else 0)
             if op.get("alloc_fail"):
                 cand = copy.deepcopy(self.best)
@@ -247,7 +253,7 @@ class Minimiser:
                 # fewer disabled shortcut sites
                 m = op["mask"]
                 for bit in range(16):
-                    if m & (1 << bit) and m != (1 << bit):
+                    if m & (1 << bit) and m != (1 << bit):  # sites S1-S9
                         cand = copy.deepcopy(self.best)
                         for o in all_ops(cand):
                             if o.get("mask") == m:
@@ -555,7 +561,7 @@ def check(prop, tier, seed, runs_override=None, workers=None, repo="/repo", time
         n_new += 1
         detail = [d for c, s, d in gate["classes"] if c == cls and s == site][0]
         lines.append("VIOLATION property=%s replay=%s" % (prop, rp))
-        lines.append("  class=%s site=%s flavour=%s seen_in_runs=%d minimised_with=%d executions: %s" % (cls, site, e["flavour"], e["count"], mini.runs, detail[:600]))
+        lines.append("  class=%s site=%s flavour=%s occurrences=%d minimised_with=%d executions: %s" % (cls, site, e["flavour"], e["count"], mini.runs, detail[:600]))
         exit_code = max(exit_code, 1)
     for cls, site, k in known_hits:
         lines.append("KNOWN-FINDING: property=%s %s [class=%s site=%s]" % (prop, k.get("what", ""), cls, site))
